@@ -10,7 +10,7 @@ PENDING = 'check under construction (DESIGN.md Appendix C); not claimed yet'
 CLAIMED = {
     'C19': dict(
         category='other',
-        text='Static provenance analysis over rustc MIR: every Cel/CelId construction, every index into the cel table, every Cel accessor and the three image routes are enumerated and shown to use the (file, frame, layer) triple un-swapped, for all inputs. Decides the structural clauses (same pair => same cel); pixel equality then follows from "same routine, same arguments" and is not checked numerically.',
+        text='Static provenance analysis over rustc MIR: every Cel/CelId construction, every index into the cel table, every Cel accessor and the three image routes are enumerated and shown to use the (file, frame, layer) triple un-swapped, for all inputs. Decides the structural clauses (same pair => same cel); pixel equality then follows from "same routine, same arguments" and is not checked numerically. Also: validated cel rows keep slot positions (one push per slot on every path), the parent table and the unnarrowed nesting level behind \'visible\'.',
         design_ref='DESIGN.md section 4, C19',
         note='Trusted: rustc MIR construction, the asemir driver, std Vec/Index semantics. Parameter positions of the public API (cel(frame, layer), Frame::layer(layer), Layer::frame(frame), tilemap(layer, frame)) are the oracle.',
         technique='static analysis: MIR origin/provenance dataflow + dominance (custom rustc_private driver)'),
@@ -18,14 +18,14 @@ CLAIMED = {
 
 CLAIMED['C08'] = dict(
     category='other',
-    text='Static shape analysis over rustc MIR of the five places where tile geometry is computed, with index arithmetic compared as polynomials over atomic terms (so association, commutation, casts and temporaries are irrelevant; only which quantity multiplies which, and which axis meets which dimension, matters). Decided for all inputs: Tilemap::tile reads tiles[(y-oy)*W + (x-ox)] exactly inside 0<=x-ox<W, 0<=y-oy<H and otherwise returns the static EMPTY_TILE whose id is 0; the logical size is the per-axis rounded-up quotient of the canvas and the handle\'s own tileset; tile offsets are the cel position divided per axis by the tile size; tile_image(i) is the i-th block of tw*th pixels as a tw x th image and Tileset::image is all blocks in stored order with height th*count; the tilemap rasteriser blends pixel py*tw+px of tile_slice(tile(tx,ty).id) onto (cel.x+tx*tw+px, cel.y+ty*th+py) with the layer x cel opacity, TilemapData::tile reads tiles[y*W+x], tile_slice cuts pixels[ppt*id .. +ppt], Tilemap::image is its cel\'s image (delegation chain Tilemap::image -> Cel::image -> layer_image, drawn whenever the cel exists, image handed on untouched), the tileset chunk is read and stored as the spec table says; nothing but the per-pixel clip test (or a cull of tiles lying wholly outside the canvas) decides whether a pixel is drawn; and the checked arithmetic of these functions cannot wrap (same discharge rows as C04/C05/C16). NOT decided (and said so in the evidence): numerical agreement of lookup and image when the cel offset is not a multiple of the tile size (truncating division on negative offsets), and pixel values.',
+    text='Static shape analysis over rustc MIR of the five places where tile geometry is computed, with index arithmetic compared as polynomials over atomic terms (so association, commutation, casts and temporaries are irrelevant; only which quantity multiplies which, and which axis meets which dimension, matters). Decided for all inputs: Tilemap::tile reads tiles[(y-oy)*W + (x-ox)] exactly inside 0<=x-ox<W, 0<=y-oy<H and otherwise returns the static EMPTY_TILE whose id is 0; the logical size is the per-axis rounded-up quotient of the canvas and the handle\'s own tileset; tile offsets are the cel position divided per axis by the tile size; tile_image(i) is the i-th block of tw*th pixels as a tw x th image and Tileset::image is all blocks in stored order with height th*count; the tilemap rasteriser blends pixel py*tw+px of tile_slice(tile(tx,ty).id) onto (cel.x+tx*tw+px, cel.y+ty*th+py) with the layer x cel opacity, TilemapData::tile reads tiles[y*W+x], tile_slice cuts pixels[ppt*id .. +ppt], Tilemap::image is its cel\'s image (delegation chain Tilemap::image -> Cel::image -> layer_image, drawn whenever the cel exists, image handed on untouched), the tileset chunk is read and stored as the spec table says; nothing but the per-pixel clip test (or a cull of tiles lying wholly outside the canvas) decides whether a pixel is drawn; and the checked arithmetic of these functions cannot wrap (same discharge rows as C04/C05/C16). NOT decided (and said so in the evidence): numerical agreement of lookup and image when the cel offset is not a multiple of the tile size (truncating division on negative offsets), and pixel values. Also: validate_tile_ids refuses only a tile id of the map >= tile_count, every tileset chunk is decoded wherever it stands, the layer chunk\'s DWORD tileset index is stored as read, no new refusal in the loader.',
     design_ref='DESIGN.md section 13 (supersedes the not-applicable entry of section 4/6 for C08)',
     note='Trusted: rustc MIR, the driver, the row-major contract of image::ImageBuffer::from_raw, Iterator::skip/take and slice indexing. Width safety of the arithmetic is C04/C05/C16, not this check. Accepted spellings of the rounded-up quotient: (p + t - 1) / t in any association, or p.div_ceil(t).',
     technique='static analysis: MIR provenance terms normalised to polynomials over atoms, guard/dominance inspection (custom rustc_private driver)')
 
 CLAIMED['C09'] = dict(
     category='other',
-    text='Static shape + provenance analysis over rustc MIR of the three functions that carry the property. compute_parents: one table entry per layer (enumerate over the whole slice, one push per iteration), the entry is None exactly under child_level == 0, otherwise the result of a last-match search (rposition) over the layers before it (take(id)) whose predicate is candidate.child_level < own child_level - by the documented meaning of rposition the nearest preceding layer with a smaller level, hence a lower id; no candidate is a ?-propagated error. Layer::parent() returns that entry for its own id; the level compared is the unnarrowed 16-bit file field, the layer chunk (incl. the flags word that carries the visible bit) is read and stored as the spec table says, and the layer-count cap rejects only more than 65536 layers. An explicit descending search loop with first-match break and a `parent.is_none() -> Err` check is accepted as a second spelling of the search. Layer::is_visible returns false only after a failed VISIBLE test of a member of the chain self, parent, grandparent, ... and true only at a member with no parent whose own test passed, the chain being loop-carried through the parents table (unbounded). frame_image draws a cel only under is_visible() of its layer. Decided for all level sequences because it is the shape of the search, not a sample of its results.',
+    text='Static shape + provenance analysis over rustc MIR of the three functions that carry the property. compute_parents: one table entry per layer (enumerate over the whole slice, one push per iteration), the entry is None exactly under child_level == 0, otherwise the result of a last-match search (rposition) over the layers before it (take(id)) whose predicate is candidate.child_level < own child_level - by the documented meaning of rposition the nearest preceding layer with a smaller level, hence a lower id; no candidate is a ?-propagated error. Layer::parent() returns that entry for its own id; the level compared is the unnarrowed 16-bit file field, the layer chunk (incl. the flags word that carries the visible bit) is read and stored as the spec table says, and the layer-count cap rejects only more than 65536 layers. An explicit descending search loop with first-match break and a `parent.is_none() -> Err` check is accepted as a second spelling of the search. Layer::is_visible returns false only after a failed VISIBLE test of a member of the chain self, parent, grandparent, ... and true only at a member with no parent whose own test passed, the chain being loop-carried through the parents table (unbounded). frame_image draws a cel only under is_visible() of its layer. Decided for all level sequences because it is the shape of the search, not a sample of its results. Also: layers and cels are collected independently of their order in the file, no new refusal of legal forests (error-construction inventory).',
     design_ref='DESIGN.md section 13 (supersedes the not-applicable entry of section 4/6 for C09)',
     note='Trusted: rustc MIR, the driver, the documented semantics of Iterator::enumerate/take/rposition (not analysed). The rule recognises the rposition form of the search and the loop (strongly) / recursive / iterator (weakly: unbounded walk + VISIBLE flag) forms of is_visible; a rewrite into a different algorithm is reported as an unrecognised form.',
     technique='static analysis: MIR provenance terms, closure-body inspection, dominance/guards (custom rustc_private driver)')
@@ -39,21 +39,21 @@ CLAIMED['C18'] = dict(
 
 CLAIMED['C15'] = dict(
     category='other',
-    text='Static switch-table extraction + error-discipline analysis over rustc MIR: for each documented refusal (colour depth, pixel ratio, layer type, blend mode, cel type, animation direction, colour-profile type/ICC/gamma flag, bits per tile, tilesets without pixels, chunk type) the field is read at its spec position and full width (layout comparison of the refusing decoders; the matcher argument is the whole field, not narrowed), every chunk of a frame reaches the dispatch (chunk-count rule), the accepted constant set is read off the branch, the remaining edge is shown to return Err on every path, the decoder call is shown to dominate the construction of the decoded structure, and its Result is shown to be ?-propagated up to read_aseprite; every fallible call site in the loader cone is checked for dropped errors. Holds for all inputs because it is a property of the branch structure, not of sampled files.',
+    text='Static switch-table extraction + error-discipline analysis over rustc MIR: for each documented refusal (colour depth, pixel ratio, layer type, blend mode, cel type, animation direction, colour-profile type/ICC/gamma flag, bits per tile, tilesets without pixels, chunk type) the field is read at its spec position and full width (layout comparison of the refusing decoders; the matcher argument is the whole field, not narrowed), every chunk of a frame reaches the dispatch (chunk-count rule), the accepted constant set is read off the branch, the remaining edge is shown to return Err on every path, the decoder call is shown to dominate the construction of the decoded structure, and its Result is shown to be ?-propagated up to read_aseprite; every fallible call site in the loader cone is checked for dropped errors. Holds for all inputs because it is a property of the branch structure, not of sampled files. Also: every decoded tileset reaches the validation (add() inserts unconditionally), no arm consults other chunks before deciding to decode.',
     design_ref='DESIGN.md section 4, C15',
     note='Trusted: rustc MIR, the driver, the supported value sets transcribed from the file-format spec (DESIGN.md Appendix A). Pixel-ratio rule decided by abstract evaluation of the guard over value classes {0,1,2,255}^2. Does not decide which error variant is returned.',
     technique='static analysis: MIR switch-table extraction, dominance / must-pass-through, Result-propagation (error discipline) dataflow')
 
 CLAIMED['C10'] = dict(
     category='other',
-    text='The attachment rule is a finite state machine written as match arms; an effect analysis over rustc MIR (writes through &mut ParseInfo with local callees inlined) reads the whole transition table off the code - per chunk kind the context effect and payload origin, per context the entity written and nothing else - and compares it with the table the property states, together with: no other writer of the state (and none in parse_frame outside the dispatch arms), initial state None, every entity constructed with an empty user-data slot, the tag vector never reordered between decoding and attachment, text/colour read only under their flag bits, accessors return the written field, validation moves entities without dropping user data. Every transition is decided for every arm, hence for every chunk sequence.',
+    text='The attachment rule is a finite state machine written as match arms; an effect analysis over rustc MIR (writes through &mut ParseInfo with local callees inlined) reads the whole transition table off the code - per chunk kind the context effect and payload origin, per context the entity written and nothing else - and compares it with the table the property states, together with: no other writer of the state (and none in parse_frame outside the dispatch arms), initial state None, every entity constructed with an empty user-data slot, the tag vector never reordered between decoding and attachment, text/colour read only under their flag bits, accessors return the written field, validation moves entities without dropping user data. Every transition is decided for every arm, hence for every chunk sequence. Also: chunks are dispatched in file order, the context index is kept at >= 32 bits for slices, cel rows only grow, and the three routes to a cel are C19\'s rules (as S6).',
     design_ref='DESIGN.md section 4, C10',
     note='Trusted: rustc MIR, the driver, documented behaviour of Vec::len/push/get_mut. The oracle table is transcribed from the property statement (DESIGN.md C10).',
     technique='static analysis: MIR effect (write-set) analysis per match arm + provenance + dominance')
 
 CLAIMED['C01'] = dict(
     category='other',
-    text='Static layout + provenance analysis over rustc MIR. For each of the 14 decoder bodies every non-error CFG path is enumerated (loops unrolled 0/1/2, reader-taking helpers inlined; nothing is executed), giving labelled sequences of reader-primitive calls that must equal the sequences generated from a hand-transcribed table of the Aseprite file-format spec (widths, signedness, order, optional parts under the right flag bit, repeat counts from the right field). Every stored struct field must then have exactly one origin - the read bound to the like-named spec field - through value-preserving casts, every public getter must return that stored field, no call may reorder layers/tags/slices/keys, frame durations are stored and read at the frame index, every chunk code reaches its own decoder on its own payload, chunk framing rejects exactly the sizes below the 6-byte header or beyond the bytes left in the frame (nothing tighter), palette entries are decoded as under C11 (ids, cumulative legacy offsets, scaling), name lookups scan forward and the layer iterator defines no cursor-moving method besides next(). Decides the structural clauses for all inputs and chunk programs; does not decide that values survive std (UTF-8, HashMap).',
+    text='Static layout + provenance analysis over rustc MIR. For each of the 14 decoder bodies every non-error CFG path is enumerated (loops unrolled 0/1/2, reader-taking helpers inlined; nothing is executed), giving labelled sequences of reader-primitive calls that must equal the sequences generated from a hand-transcribed table of the Aseprite file-format spec (widths, signedness, order, optional parts under the right flag bit, repeat counts from the right field). Every stored struct field must then have exactly one origin - the read bound to the like-named spec field - through value-preserving casts, every public getter must return that stored field, no call may reorder layers/tags/slices/keys, frame durations are stored and read at the frame index, every chunk code reaches its own decoder on its own payload, chunk framing rejects exactly the sizes below the 6-byte header or beyond the bytes left in the frame (nothing tighter), palette entries are decoded as under C11 (ids, cumulative legacy offsets, scaling), name lookups scan forward and the layer iterator defines no cursor-moving method besides next(). Decides the structural clauses for all inputs and chunk programs; does not decide that values survive std (UTF-8, HashMap). Also: each arm of the chunk dispatch touches only its own part of the parser state (outcome independent of chunk order), the loader constructs an error of its own at no more places than the reviewed 43 (no new refusal of conformant files), the layer parent search accepts every legal forest.',
     design_ref='DESIGN.md section 4, C01',
     note='Trusted: rustc MIR, the driver, tables/spec_layout.json (the oracle, transcribed from the spec document linked by the crate), std container contracts. Loop unrolling bound 2, helper inlining depth 3 (deepest real chain 3).',
     technique='static analysis: bounded CFG path enumeration of read schedules vs spec table + MIR provenance (origin) dataflow')
@@ -67,35 +67,35 @@ CLAIMED['C11'] = dict(
 
 CLAIMED['C02'] = dict(
     category='other',
-    text='Static check of the compositing skeleton over rustc MIR - eight clauses, each a necessary condition of bottom-to-top composition, decided for all inputs: fresh width x height canvas returned; cels visited through data[frame].iter().enumerate().filter_map (ascending layer index) with no early exit; slot storage by (frame, layer) with duplicate cels rejected; the only write_cel in the frame loop dominated by is_visible()==true of the same item\'s layer; per-pixel opacity = mul_un8(layer opacity of the cel\'s own layer, cel opacity); per-pixel function = blend_mode_to_blend_fn(mode of the cel\'s own layer) with the 19-row mode->function and code->mode tables equal to the spec; backdrop read and result store at the same (x, y), source from the cel pixel slice; cel offset sign-extended and every pixel access guarded by 0 <= coord < dimension. Partial: pixel values, clip index arithmetic and mul_un8 rounding are not decided.',
+    text='Static check of the compositing skeleton over rustc MIR - eight clauses, each a necessary condition of bottom-to-top composition, decided for all inputs: fresh width x height canvas returned; cels visited through data[frame].iter().enumerate().filter_map (ascending layer index) with no early exit; slot storage by (frame, layer) with duplicate cels rejected; the only write_cel in the frame loop dominated by is_visible()==true of the same item\'s layer; per-pixel opacity = mul_un8(layer opacity of the cel\'s own layer, cel opacity); per-pixel function = blend_mode_to_blend_fn(mode of the cel\'s own layer) with the 19-row mode->function and code->mode tables equal to the spec; backdrop read and result store at the same (x, y), source from the cel pixel slice; cel offset sign-extended and every pixel access guarded by 0 <= coord < dimension. Partial: pixel values, clip index arithmetic and mul_un8 rounding are not decided. Also: the Cel arm of the dispatch is independent of the layers seen so far, the parent table / visibility chain is C09\'s, the divisions of blend::normal have the divisor src_a\'+back_a-mul_un8(back_a,src_a\') under back_a != 0 (lemma H3 stated), tile words are decoded with the cel\'s own masks.',
     design_ref='DESIGN.md section 4, C02',
     note='Trusted: rustc MIR, the driver, image::ImageBuffer::new zero-fills, the blend-mode numbering of the spec (DESIGN.md Appendix A). Structural clauses only; numeric equality with Aseprite is C03 (not applicable).',
     technique='static analysis: MIR provenance + dominance (guards) + switch-table extraction')
 
 CLAIMED['C06'] = dict(
     category='other',
-    text='Static check over rustc MIR of how cel pixels are decoded and handed to the rasteriser, decided for all inputs: cel chunk layout (signed x/y, four cel types, declared payload size w*h*bytes_per_pixel) equals the spec table; cel-type, colour-depth and bytes-per-pixel tables read off the match arms; RGBA = four consecutive byte reads in order, grayscale (v,a) -> [v,v,v,a], indexed -> [c.red,c.green,c.blue,A] with A = 0 exactly under (transparent_index == index && !layer_is_background); background flag from the cel\'s own layer (bit 0x8), transparent index from the header field; linked cels resolved against the same layer in the linked frame and drawn through the same routine; is_empty = is_none without negation; absent cel offset (0,0); opacity product and sign-extended offset as in C02. Partial: pixel values end to end and zlib correctness are not decided.',
+    text='Static check over rustc MIR of how cel pixels are decoded and handed to the rasteriser, decided for all inputs: cel chunk layout (signed x/y, four cel types, declared payload size w*h*bytes_per_pixel) equals the spec table; cel-type, colour-depth and bytes-per-pixel tables read off the match arms; RGBA = four consecutive byte reads in order, grayscale (v,a) -> [v,v,v,a], indexed -> [c.red,c.green,c.blue,A] with A = 0 exactly under (transparent_index == index && !layer_is_background); background flag from the cel\'s own layer (bit 0x8), transparent index from the header field; linked cels resolved against the same layer in the linked frame and drawn through the same routine; is_empty = is_none without negation; absent cel offset (0,0); opacity product and sign-extended offset as in C02. Partial: pixel values end to end and zlib correctness are not decided. Also: the take() bound of the inflater, Cel::image delegation, the link-target table built from the whole input, grow-only cel rows, the palette decoders (as V), no new refusal in the loader, the divisions of blend::normal.',
     design_ref='DESIGN.md section 4, C06',
     note='Trusted: rustc MIR, the driver, spec table, flate2. Structural clauses only.',
     technique='static analysis: read-schedule path enumeration vs spec + MIR provenance + switch tables + guard dominance')
 
 CLAIMED['C07'] = dict(
     category='other',
-    text='Non-interference decided statically over rustc MIR: every read the spec marks ignorable is consumed (layout equality for all 14 decoders) and its value has no use (def-use); every chunk decoder receives only the byte slice of its own chunk and builds a private reader, the chunk buffer is exactly chunk_size - 6 bytes; cel-extra/mask/path arms write no parser state and the colour-profile arm writes only a field nobody reads; the chunk count is new_chunks unless 0, else old_chunks; the pixel-ratio refusal accepts zero components (truth table by abstract evaluation); no reader call after the frames loop, the header file size is unused and the two public loaders hand their input to the one parser without looking at it (callee whitelist); each frame stores its own duration unconditionally (the deprecated header speed cannot show); palette precedence; raw/zlib cel decoders are siblings differing only in take_bytes vs unzip; cels stored by slot with duplicates rejected. Partial: shows absence of flows that could make observations differ; zlib level independence is flate2\'s contract.',
+    text='Non-interference decided statically over rustc MIR: every read the spec marks ignorable is consumed (layout equality for all 14 decoders) and its value has no use (def-use); every chunk decoder receives only the byte slice of its own chunk and builds a private reader, the chunk buffer is exactly chunk_size - 6 bytes; cel-extra/mask/path arms write no parser state and the colour-profile arm writes only a field nobody reads; the chunk count is new_chunks unless 0, else old_chunks; the pixel-ratio refusal accepts zero components (truth table by abstract evaluation); no reader call after the frames loop, the header file size is unused and the two public loaders hand their input to the one parser without looking at it (callee whitelist); each frame stores its own duration unconditionally (the deprecated header speed cannot show); palette precedence; raw/zlib cel decoders are siblings differing only in take_bytes vs unzip; cels stored by slot with duplicates rejected. Partial: shows absence of flows that could make observations differ; zlib level independence is flate2\'s contract. Also: dispatch arms independent of each other\'s state, chunk framing refuses exactly size < 6 and size > bytes left, flag words are converted through a masking conversion, no new refusal in the loader.',
     design_ref='DESIGN.md section 4, C07',
     note='Trusted: rustc MIR, the driver, spec table (which fields are ignorable), flate2.',
     technique='static analysis: def-use (taint) of ignorable reads, effect analysis per match arm, sibling comparison, abstract evaluation of guards')
 
 CLAIMED['C17'] = dict(
     category='other',
-    text='Static check of the call structure of blend.rs over rustc MIR: every non-Normal mode is blender(backdrop, src, opacity, its own distinct baseline); every baseline returns normal(backdrop, S\', opacity) on every path with alpha(S\') = alpha of src; blender is merge(merge(N, X, .), X, .) under a visible backdrop and normal(b,s,o) otherwise; normal\'s transparent-backdrop / transparent-source edges and the origin of its general alpha (only the two alphas and opacity); merge\'s alpha = blend8(back_a, src_a, opacity) and invisible-operand edges. From this wiring plus two stated arithmetic helper facts (H1 blend8(a,a,o)=a, H2 merge(c,c,o)=c) the mode-independent alpha law and the transparent-source / transparent-backdrop identities follow. Partial: H1/H2, the 0..255 range clause, the opaque-Normal and zero-opacity identities and all pixel values are NOT decided.',
+    text='Static check of the call structure of blend.rs over rustc MIR: every non-Normal mode is blender(backdrop, src, opacity, its own distinct baseline); every baseline returns normal(backdrop, S\', opacity) on every path with alpha(S\') = alpha of src; blender is merge(merge(N, X, .), X, .) under a visible backdrop and normal(b,s,o) otherwise; normal\'s transparent-backdrop / transparent-source edges and the origin of its general alpha (only the two alphas and opacity); merge\'s alpha = blend8(back_a, src_a, opacity) and invisible-operand edges. From this wiring plus two stated arithmetic helper facts (H1 blend8(a,a,o)=a, H2 merge(c,c,o)=c) the mode-independent alpha law and the transparent-source / transparent-backdrop identities follow. Partial: H1/H2, the 0..255 range clause, the opaque-Normal and zero-opacity identities and all pixel values are NOT decided. Also decided: the divisions of normal (divisor shape under back_a != 0, lemma H3), no assertion site in blend.rs other than the four range assertions of from_rgba_i32 unless discharged, header/layer layouts and the background-flag test.',
     design_ref='DESIGN.md section 4, C17',
     note='Trusted: rustc MIR, the driver. Assumptions H1, H2 are listed in the evidence; the range clause would need relational numeric reasoning (a solver) - out of this technique family.',
     technique='static analysis: call-structure provenance over MIR (per-edge return terms, sibling distinctness)')
 
 CLAIMED['C13'] = dict(
     category='other',
-    text='For a strict prefix to load, a read that should hit end-of-input must be satisfied short or its failure ignored - both are shapes. Static who-may-call + error-discipline analysis over the loader cone: the input is touched only via read_exact-family calls or read_to_end on a take()/zlib wrapper (take_bytes compares the delivered length); a take() bound lets the whole requested length through; the public loaders add no peeking, sizing or prefetching in front of the parser (callee whitelist); the outer-reader functions use only exact primitives; the frames and chunk loops are 0..count with a ?-propagated parse call on every iteration and no exit but exhaustion or Err; header/frame/chunk layouts equal the spec so every byte before the end of the last frame is covered by an exact read; no Result in the cone is dropped. Decided for all inputs and cut points; the final inference (counts precede their data) is recorded reasoning.',
+    text='For a strict prefix to load, a read that should hit end-of-input must be satisfied short or its failure ignored - both are shapes. Static who-may-call + error-discipline analysis over the loader cone: the input is touched only via read_exact-family calls or read_to_end on a take()/zlib wrapper (take_bytes compares the delivered length); a take() bound lets the whole requested length through; the public loaders add no peeking, sizing or prefetching in front of the parser (callee whitelist); the outer-reader functions use only exact primitives; the frames and chunk loops are 0..count with a ?-propagated parse call on every iteration and no exit but exhaustion or Err; header/frame/chunk layouts equal the spec so every byte before the end of the last frame is covered by an exact read; no Result in the cone is dropped. Decided for all inputs and cut points; the final inference (counts precede their data) is recorded reasoning. The read path (reader primitives, read_aseprite, parse_frame, Chunk::read/read_all) has no undischarged panic-capable site, so a cut ends in an error value; flat_map/flatten over Results counts as a dropped error.',
     design_ref='DESIGN.md section 4, C13',
     note='Trusted: rustc MIR, the driver, the documented contract of read_exact / byteorder read_* (UnexpectedEof on short input).',
     technique='static analysis: who-may-call on the input over the call-graph cone, loop-exit classification, Result-propagation dataflow')
@@ -115,21 +115,21 @@ CLAIMED['C04'] = dict(
 
 CLAIMED['C12'] = dict(
     category='other',
-    text='Taint analysis from declared sizes to allocation sinks over the loader cone, value-independent and decided from the code: every allocation sink (with_capacity, vec![x; n], resize/resize_with/reserve, HashMap::with_capacity, read_to_end) gets a byte bound from an interval analysis of its size argument (inter-procedural parameter ranges, dominating constant guards such as .min(CAP)) times rustc\'s element size, and is classified bounded-constant (<= 32 MiB, multiplied by the trip bounds of enclosing loops for in-place growth of parser state), input-justified (length of data already in memory; buffer filled through a bounded reader whose delivered length is compared with the request; read_to_end on take()/zlib) or declared-only (a finding). Growth sinks (push/insert/collect) must sit in loops that are bounded or make ?-propagated progress on the input. Four declared-size allocations found on the pinned tree were repaired by fix: commits; one (add_cel resize_with, D17) is a recorded known finding.',
+    text='Taint analysis from declared sizes to allocation sinks over the loader cone, value-independent and decided from the code: every allocation sink (with_capacity, vec![x; n], resize/resize_with/reserve, HashMap::with_capacity, read_to_end) gets a byte bound from an interval analysis of its size argument (inter-procedural parameter ranges, dominating constant guards such as .min(CAP)) times rustc\'s element size, and is classified bounded-constant (<= 32 MiB, multiplied by the trip bounds of enclosing loops for in-place growth of parser state), input-justified (length of data already in memory; buffer filled through a bounded reader whose delivered length is compared with the request; read_to_end on take()/zlib) or declared-only (a finding). Growth sinks (push/insert/collect) must sit in loops that are bounded or make ?-propagated progress on the input. Four declared-size allocations found on the pinned tree were repaired by fix: commits; one (add_cel resize_with, D17) is a recorded known finding. collect() into a plain collection over a declared range is a sink; a length that does not depend on the loop item reserved on every iteration is quadratic (reported).',
     design_ref='DESIGN.md section 4, C12 and section 5',
     note='Trusted: rustc MIR and layout, the driver, 64-bit usize, flate2 expansion <= ~1032:1, amortised growth of Vec/HashMap. The exact 64 MiB + 8192 B/byte constant is not decided; the sum of bounded-constant sinks is reported.',
     technique='static analysis: taint from file-field reads to allocation sinks + interval (width) domain + loop classification')
 
 CLAIMED['C05'] = dict(
     category='other',
-    text='Two static halves that must meet. Users: the panic-site inventory (Assert terminators, panic!/assert!, indexing, unwrap/expect, get/put_pixel, recursion) over the call-graph cone of every public accessor and rendering entry point; each site must be discharged by a caller contract (assert on a parameter in a pub fn; internal call sites must satisfy it themselves), a handle invariant (every Layer/Frame/Cel/Tilemap construction stores only asserted or table-derived indices), an interval/guard argument (incl. loop-variable bounds and the y - y0 relational fact), or a named data invariant I1..I12. Establishers: for each invariant the loader check that establishes it is located, shown to reject on its failing edge, to dominate the construction of the protected value and to be ?-propagated on every path up to read_aseprite. Eleven post-load panics found on the pinned tree were repaired by fix: commits; the rows now guard the repairs. Partial: the arithmetic of blend.rs (82 sites, enumerated) is not decided.',
+    text='Two static halves that must meet. Users: the panic-site inventory (Assert terminators, panic!/assert!, indexing, unwrap/expect, get/put_pixel, recursion) over the call-graph cone of every public accessor and rendering entry point; each site must be discharged by a caller contract (assert on a parameter in a pub fn; internal call sites must satisfy it themselves), a handle invariant (every Layer/Frame/Cel/Tilemap construction stores only asserted or table-derived indices), an interval/guard argument (incl. loop-variable bounds and the y - y0 relational fact), or a named data invariant I1..I12. Establishers: for each invariant the loader check that establishes it is located, shown to reject on its failing edge, to dominate the construction of the protected value and to be ?-propagated on every path up to read_aseprite. Eleven post-load panics found on the pinned tree were repaired by fix: commits; the rows now guard the repairs. Partial: the arithmetic of blend.rs (82 sites, enumerated) is not decided. The three divisions of blend::normal are the one part of blend.rs that is decided (divisor shape + back_a != 0, lemma H3).',
     design_ref='DESIGN.md section 4, C05 and section 5',
     note='Trusted: rustc MIR, the driver, 64-bit usize, callers respect documented index contracts, image::ImageBuffer::from_raw succeeds when the buffer length matches. Establishing comparisons are checked for operands and direction, not re-derived arithmetically.',
     technique='static analysis: panic-site inventory over the public-API cone + invariant/must-pass-through (dominance + error propagation) + interval domain')
 
 CLAIMED['C16'] = dict(
     category='proof',
-    text='Clause 1 (Send + Sync) is proof-level: a witness crate applies fn req<T: Send + Sync>() to AsepriteFile and every exported value and handle type; the obligations are discharged by rustc\'s trait solver, with compile_fail twins (Rc wrapper -> E0277, &mut return -> E0308) showing the witnesses can fail. Clauses 2-6 are static rules over the MIR/ADT/HIR facts: the field-type closure of every exported type has no UnsafeCell/Cell/RefCell/Once*/Mutex/RwLock/Atomic*/Rc/raw pointer/dyn; no static mut, thread_local or user-written unsafe; every exported method other than the loaders takes self by shared reference or value and none returns &mut; the loader and accessor cones use no ambient input (time/env/thread/process/fs except File::open in read_file), the process-wide log level decides nothing but whether a record is emitted (the region between a log-level test and its post-dominator assigns no result and writes no parser state), every hash-map iteration is on a reviewed list; every arithmetic trap/wrap site outside blend.rs is discharged and every truncating cast has its operand proven in range (interval, guard or named invariant). One truncation defect (layer ids beyond 65535) was repaired by a fix: commit.',
+    text='Clause 1 (Send + Sync) is proof-level: a witness crate applies fn req<T: Send + Sync>() to AsepriteFile and every exported value and handle type; the obligations are discharged by rustc\'s trait solver, with compile_fail twins (Rc wrapper -> E0277, &mut return -> E0308) showing the witnesses can fail. Clauses 2-6 are static rules over the MIR/ADT/HIR facts: the field-type closure of every exported type has no UnsafeCell/Cell/RefCell/Once*/Mutex/RwLock/Atomic*/Rc/raw pointer/dyn; no static mut, thread_local or user-written unsafe; every exported method other than the loaders takes self by shared reference or value and none returns &mut; the loader and accessor cones use no ambient input (time/env/thread/process/fs except File::open in read_file), the process-wide log level decides nothing but whether a record is emitted (the region between a log-level test and its post-dominator assigns no result and writes no parser state), every hash-map iteration is on a reviewed list; every arithmetic trap/wrap site outside blend.rs is discharged and every truncating cast has its operand proven in range (interval, guard or named invariant). One truncation defect (layer ids beyond 65535) was repaired by a fix: commit. No recursive cycle in the loader/accessor cones other than write_cel\'s bounded link step (results independent of the calling thread\'s stack).',
     design_ref='DESIGN.md section 4, C16',
     note='Only clause 1 is proof-level (trusted base: rustc trait solver, std auto-trait impls); clauses 2-6 are level other (static rules; trusted: rustc MIR, the driver, Rust aliasing rules). Not decided: blend.rs channel casts (C17), float determinism across targets, collection sizes bounded only by the input size fitting u32.',
     technique='static analysis: compile-time type witnesses (rustc) + type-closure walk + HIR scan (static/unsafe) + who-may-call + interval domain for casts')
